@@ -548,7 +548,7 @@ def main(tier):
         run.cov["traces_validated_against_impl"] = len(lines) - len(bad)
         why = whys(res)
         from cryptocommon import binding_selftest
-        binding_selftest(run, wd, "TraceC13", trace, 3400)
+        binding_selftest(run, wd, "TraceC13", trace, 3400, exclude=bad)
         broken = sorted({c for cs in why.values() for c in cs if c.startswith("input")})
         if broken:
             raise vlib.Inconclusive("what the harness was fed is not what the specification derives (%s) on lines %s" % (
